@@ -53,8 +53,23 @@ sim::Json generate(const std::string& tier, uint64_t seed, uint64_t index) {
   // damaged NL
   if (rng.chance(0.08)) {
     std::string nl = sc["files"]["stub.nl"].as_str();
-    int k = (int)rng.below(7);
-    if (k >= 5) {
+    int k = (int)rng.below(8);
+    if (k == 7) {
+      // the header declares more logical constraints / objectives / algebraic constraints than the file defines
+      size_t l1 = nl.find('\n'), l2 = l1 == std::string::npos ? l1 : nl.find('\n', l1 + 1);
+      if (l2 != std::string::npos && !sc["nl_binary"].as_bool()) {
+        std::string line = nl.substr(l1 + 1, l2 - l1 - 1), comment;
+        size_t hash = line.find('#'); if (hash != std::string::npos) { comment = line.substr(hash); line.resize(hash); }
+        std::vector<long> f; { const char* p = line.c_str(); char* e; for (;;) { long v = strtol(p, &e, 10); if (e == p) break; f.push_back(v); p = e; } }
+        while (f.size() < 6) f.push_back(0);
+        int which = (int)rng.below(3);       // 0: logical constraints, 1: objectives, 2: algebraic constraints
+        f[which == 0 ? 5 : which == 1 ? 2 : 1] += 1 + (long)rng.below(3);
+        std::string nline;
+        for (long v : f) nline += " " + std::to_string(v);
+        nl = nl.substr(0, l1 + 1) + nline + "\t" + comment + nl.substr(l2);
+      } else k = 0;
+    }
+    if (k >= 5 && k < 7) {
       // a function is used but its declaration is missing (k==5) / given twice (k==6)
       size_t p = sc["nl_binary"].as_bool() ? std::string::npos : nl.find("\nF0 ");
       if (p != std::string::npos) {
@@ -95,9 +110,11 @@ sim::Json generate(const std::string& tier, uint64_t seed, uint64_t index) {
   // option file
   bool optfile = false;
   if (rng.chance(0.06)) {
-    sc.ref("files").set("drv.opt", "# options\ntech:intopt=3\n" + std::string(rng.chance(0.3) ? "nosuch=1\n" : "tech:dblopt 2.5\n"));
+    sc.ref("files").set("drv.opt", "# options\ntech:intopt=3\n" + std::string(rng.chance(0.3) ? "nosuch=1\n" : "tech:dblopt 2.5\n") +
+                        std::string(rng.chance(0.1) ? "tech:optionfile=@/drv.opt\n" : ""));   // now and then the file names itself
     sc.ref("argv").push("tech:optionfile=@/drv.opt");
     if (label == "LINEAR_CLEAN") label = "LINEAR_OPTS";
+    if (sc["files"]["drv.opt"].as_str().find("optionfile") != std::string::npos && (label == "LINEAR_OPTS" || label == "GENERAL")) label = "BADOPT";
     optfile = true;
   } else if (rng.chance(0.01)) {     // an option file that opens but cannot be read (a directory) or does not exist
     sc.ref(rng.chance(0.5) ? "argv" : "argv").push(rng.chance(0.6) ? "tech:optionfile=@/." : "optionfile=@/nosuch.opt");
